@@ -173,7 +173,7 @@ func c17ResolveInterfRandom(c *Ctx) {
 		s.Lock = append(s.Lock, own)
 		s.Env.Upd = set(s.Lock, "")
 	case "moved":
-		old := c17Pkg{Name: s.Self.Name, Source: "xpkg.io/old/rev", Version: s.Self.Version, Deps: append([]c17Dep{}, s.Self.Deps...)}
+		old := c17Pkg{Name: s.Self.Name, Source: Pick(r, []string{"xpkg.io/old/rev", "xpkg.io/old/rev", s.Self.Source + "2", s.Self.Source[:len(s.Self.Source)-1]}), Version: s.Self.Version, Deps: append([]c17Dep{}, s.Self.Deps...)}
 		at := r.Intn(len(s.Lock) + 1)
 		s.Lock = append(append(c17CopyPkgs(s.Lock[:at]), old), c17CopyPkgs(s.Lock[at:])...)
 		cur := s.Lock
@@ -207,6 +207,12 @@ func c17ResolveInterfRandom(c *Ctx) {
 	}
 	if mode != "new" {
 		kinds = "" // keep the class histogram small: the applied writes are named by writers=
+	}
+	if mode == "new" { // (own entries stay as generated in the other modes: LockWF)
+		c17NameTwist(r, &s)
+	}
+	if r.Chance(1, 8) {
+		s.Fault = c17PickFault(r)
 	}
 	c17ResEmit(c, s, fmt.Sprintf("rnd/%s%s", mode, kinds))
 }
